@@ -37,7 +37,7 @@ type c19Scenario struct {
 }
 
 var c19Endings = []string{"served", "served", "served", "served-hints", "served-head", "served-buffered", "404", "redirect", "tls-503", "paused-504", "stopped-503", "bounced-503", "bounced-504",
-	"target-502", "target-504", "target-truncated", "413", "500-overflow", "abort-waiting", "abort-download", "abort-upload", "upgrade"}
+	"target-502", "target-504", "target-truncated", "413", "500-overflow", "abort-waiting", "abort-waiting-buffered", "abort-download", "abort-upload", "upgrade"}
 
 func c19Gen(rng *rand.Rand, idx int) c19Scenario {
 	sc := c19Scenario{Idx: idx}
@@ -90,6 +90,8 @@ func c19Gen(rng *rand.Rand, idx int) c19Scenario {
 			r.Host, r.Method, r.Body = "buf.example", "POST", 3000
 		case "500-overflow":
 			r.Host, r.Size = "buf.example", 3000
+		case "abort-waiting-buffered":
+			r.Host = "bufok.example" // the same on a service that buffers requests and responses
 		case "abort-waiting", "abort-download":
 			r.Host = "plain.example"
 			if r.Ending == "abort-download" {
@@ -194,7 +196,7 @@ func c19Run(t *testing.T, run *Run, sc c19Scenario) {
 			req.Hdr = append(req.Hdr, [2]string{"X-Fault", "short-body"})
 		case "served-hints":
 			req.Mode = "hints"
-		case "abort-waiting":
+		case "abort-waiting", "abort-waiting-buffered":
 			req.Lat, req.AbortAfter = 5*time.Second, time.Second
 		case "upgrade":
 			req.Mode, req.AbortAfter = "upgrade", 2*time.Second
@@ -308,7 +310,7 @@ func c19Run(t *testing.T, run *Run, sc c19Scenario) {
 			}
 		}
 		switch r.Ending {
-		case "abort-waiting":
+		case "abort-waiting", "abort-waiting-buffered":
 			if num(rec, "status") != 499 {
 				fail("abort-status", "client of %s went away while the target was working; record status=%d, expected 499", r.ID, num(rec, "status"))
 				return
